@@ -607,6 +607,7 @@ class C14(E2Prop):
 class C07(E2Prop):
     id = 'C07'
     props_files = ['C07', 'C07hs']
+    debug_in_quick = True      # overflow checks / debug_assert! are this property's subject: the debug build runs in every tier
     rule = ('socket: random byte streams, mutated valid streams, boundary-crafted headers x per-call outcomes {n bytes, 0, WouldBlock, Interrupted, reset, other} on read/write/flush x roles x finite limits, plus all history generators; '
             'handshake: valid/invalid/endless heads x the same outcome kinds incl. zero-length writes; every case under catch_unwind; monitor: no panic, no out-of-fuel, bounded transport calls')
     level_text = 'no modelled call returns Panic or OutOfFuel for any op list and any oracle (socket, finite limits) and any handshake round sequence (both roles); overflow sites unreachable below 2^63; panics inside dependencies are outside the model (catch_unwind support test)'
@@ -647,6 +648,10 @@ class C07(E2Prop):
                                      rbs=rng.choice([0, 1, 7, 4096])))
         for i in range(300 if tier == 'quick' else 3000):
             out.append(gen_e2.random_history(rng, 'h%d' % i, long=True))
+        for role in 'sc':
+            for lower in (1, 5, 9, 30):
+                for wpat in ('wb8', 'wb2', 'accept'):
+                    out.append(gen_e2.history('z', role, ['wb:000102030405', 'wb:0a0b', 'sb:0:%d' % lower, 'wb:0c', 'wt:6869', 'f', 'sb:0:inf', 'wb:0d', 'f', 'f'], [], wpat, 'ok', 0, 200))
         for role in 'sc':
             data = b''.join(gen_streams.stream_case(rng)['frames']) + gen_e2.peer_frame(role, 2, b'x' * 40)
             for rbs in (0, 1, 5, 8, 16):
